@@ -110,6 +110,16 @@ inductive Call where
   | caPsk | caPrk | caBundle | caCert (k : String) | caFin
   | sgPub (k : String) | sgSign (k : String)
   | stR (o : String) | stE (o : String) | stW (o : String) | stWr (o : String) | stC (o : String)
+  -- Cloud KMS client calls (keys/gcpkms): CreateCryptoKeyVersion, GetCryptoKeyVersion, GetPublicKey,
+  -- AsymmetricSign, DestroyCryptoKeyVersion
+  | kmsCreate | kmsGet (k : String) | kmsPub (k : String) | kmsSign (k : String) | kmsDestroy (k : String)
+deriving DecidableEq, Repr
+
+/-- state of a Cloud KMS key version that is NOT usable (an ENABLED version is an entry of `St.keys`):
+    PENDING_GENERATION with the number of further polls that will still see it pending, DISABLED,
+    DESTROY_SCHEDULED, DESTROYED, GENERATION_FAILED -/
+inductive KState where
+  | pending (n : Nat) | disabled | scheduled | destroyed | genFailed
 deriving DecidableEq, Repr
 
 inductive CAKind where
@@ -142,9 +152,11 @@ structure St where
   memCerts : List (String × Cert)    -- memca
   memRoot : String
   memPrimary : String
+  kcount : Nat := 0                       -- Cloud KMS: versions ever created under the signing cryptoKey
+  kdead : List (String × KState) := []    -- Cloud KMS: versions that are not ENABLED (insert shadows)
 deriving Repr
 
-def St.init : St := ⟨0, [], [], 0, [], none, [], "", ""⟩
+def St.init : St := ⟨0, [], [], 0, [], none, [], "", "", 0, []⟩
 
 /-- Dropping everything that does not survive the process: a fresh authority instance over the same
     storage (no cached manifest) and a new call log.  (memca has no storage of its own: the instance
